@@ -459,25 +459,33 @@ def rule_s5(repo, col):
     pf = L.methods.get("plus")
     if pf is not None:
         a, b = pf.params[1], pf.params[2]
-        g = cfgmod.build(pf.node)
-        facts = cfgmod.available_facts(g)
-        for n in g.stmt_nodes():
-            if n.kind != "stmt" or not isinstance(n.ast, ast.Return):
+        # decision-table paths: temporaries (smaller, larger = a, b) are read through, the conditions of a path are the facts established on it
+        from .. import dtable as _dt
+        seen_ret = set()
+        for p_ in _dt.extract(pf.node, opaque_loops=True):
+            if p_.end != "return" or p_.value is None:
                 continue
-            e = n.ast.value
+            st = frozenset((s_, t_) for s_, t_, _ in p_.conds)
+            try:
+                e = ast.parse(p_.value, mode="eval").body
+            except SyntaxError:
+                raise AnalysisError("SemiringLogProbability.plus: return value not parseable")
+            rnode = p_.stmts[-1] if p_.stmts else pf.node
+            keyr = (norm(e), st)
+            if keyr in seen_ret:
+                continue
+            seen_ret.add(keyr)
             if isinstance(e, ast.Name) and e.id in (a, b):
                 # returning one operand: the other must be known to be -inf (zero)
                 other = b if e.id == a else a
-                st = facts.get(n.id) or frozenset()
                 okz = any(t and src in ("%s == self.ninf" % other, "self.is_zero(%s)" % other, "%s == self.zero()" % other) for src, t in st)
-                col.decide("S5", m, n.ast, okz, "plus returns %s when %s is zero" % (e.id, other),
+                col.decide("S5", m, rnode, okz, "plus returns %s when %s is zero" % (e.id, other),
                            "log-space plus returns %s without establishing that %s is zero (-inf)" % (e.id, other))
                 continue
             lse = _logsumexp_shape(e)
             if lse is None:
-                raise AnalysisError("SemiringLogProbability.plus line %d: return shape not understood: %s" % (n.line, norm(e)))
+                raise AnalysisError("SemiringLogProbability.plus line %d: return shape not understood: %s" % (getattr(rnode, "lineno", 0), norm(e)))
             big, small = lse
-            st = facts.get(n.id) or frozenset()
             # need: small <= big on this path
             order_ok = False
             for src, t in st:
@@ -485,7 +493,7 @@ def rule_s5(repo, col):
                    (src == "%s > %s" % (big, small) and t) or (src == "%s <= %s" % (small, big) and t) or \
                    (src == "%s >= %s" % (big, small) and t) or (src == "%s > %s" % (small, big) and not t):
                     order_ok = True
-            col.decide("S5", m, n.ast, {big, small} == {a, b} and order_ok,
+            col.decide("S5", m, rnode, {big, small} == {a, b} and order_ok,
                        "plus is log-sum-exp anchored at the larger operand",
                        "log-space plus must be big + log1p(exp(small - big)) with small <= big established on the path (overflow-safe log-sum-exp of both operands)")
 
@@ -513,6 +521,25 @@ def _format_parts(e, params):
     if isinstance(e, ast.BinOp) and isinstance(e.op, ast.Mod) and isinstance(e.left, ast.Constant) and isinstance(e.left.value, str):
         args = list(e.right.elts) if isinstance(e.right, ast.Tuple) else [e.right]
         return e.left.value, args
+    if isinstance(e, ast.JoinedStr):
+        # f"({a} + {b})": the same template with one %s per replacement field
+        fmt, args = [], []
+        for part in e.values:
+            if isinstance(part, ast.Constant) and isinstance(part.value, str):
+                if "%" in part.value:
+                    return None
+                fmt.append(part.value)
+            elif isinstance(part, ast.FormattedValue) and part.format_spec is None and part.conversion in (-1, 115):
+                fmt.append("%s")
+                args.append(part.value)
+            else:
+                return None
+        return "".join(fmt), args
+    if isinstance(e, ast.Call) and isinstance(e.func, ast.Attribute) and e.func.attr == "format" and not e.keywords and isinstance(e.func.value, ast.Constant) \
+            and isinstance(e.func.value.value, str) and "%" not in e.func.value.value:
+        t = e.func.value.value
+        if t.count("{}") == len(e.args) and t.replace("{}", "").count("{") == 0 and t.replace("{}", "").count("}") == 0:
+            return t.replace("{}", "%s"), list(e.args)
     return None
 
 
